@@ -11,7 +11,7 @@ from ..core import Sub
 PROP = {
     "id": "C13",
     "level": "exploration",
-    "technique": "exhaustive enumeration of the char x position x width x length product + Hypothesis text/bytes generation against an explicit cp1252 table oracle; every ordered pair of 27 special characters x 4 placements at each of the nine string sites (finite enumeration)",
+    "technique": "exhaustive enumeration of the char x position x width x length product + Hypothesis text/bytes generation against an explicit cp1252 table oracle; every ordered pair of 27 special characters x 4 placements at each of the nine string sites (finite enumeration); every text also as an instance of a str subclass whose renderings are not its content; entry comments of bystander blocks through replace / set / remove",
     "level_text": ("Exploration with an exhaustive sub-domain: every cp1252 character at first/middle/last position for six widths and "
                    "seven boundary lengths is enumerated completely; beyond that Hypothesis samples arbitrary Unicode text, arbitrary "
                    "field bytes and every string site of the block classes. Right level because the domain is a product of small finite "
